@@ -149,125 +149,6 @@ next:
 }
 
 // ---------------------------------------------------------------------
-// Catalogue
-
-func vhDefLiteral() Rules {
-	return Rules{"Root": {{"A", `a`, nil}, {"AB", `ab`, nil}, {"B", `b`, nil}}}
-}
-
-func vhDefOverlap() Rules { // first match wins over longer match
-	return Rules{"Root": {{"Kw", `if`, nil}, {"Ident", `[a-z]+`, nil}, {"ws", ` +`, nil}}}
-}
-
-func vhDefClasses() Rules {
-	return Rules{"Root": {{"Num", `[0-9]+`, nil}, {"Word", `\w+`, nil}, {"ws", `\s+`, nil}, {"Other", `[^\s\w]`, nil}}}
-}
-
-func vhDefDot() Rules {
-	return Rules{"Root": {{"NL", `\n`, nil}, {"AnyPair", `a.`, nil}, {"Any", `.`, nil}}}
-}
-
-func vhDefMultibyte() Rules {
-	return Rules{"Root": {{"Greek", `[α-ω]+`, nil}, {"Ascii", `[a-z]`, nil}, {"ws", `\s`, nil}}}
-}
-
-func vhDefAnchors() Rules {
-	return Rules{"Root": {{"WordA", `\ba\b`, nil}, {"StartB", `^b`, nil}, {"Char", `[a-c]`, nil}, {"Sp", ` `, nil}}}
-}
-
-func vhDefAlternation() Rules {
-	return Rules{"Root": {{"Alt", `ab|a|(?:b|c)+`, nil}, {"D", `d?e`, nil}}}
-}
-
-func vhDefEmptyRule() Rules { // a rule that can match the empty string
-	return Rules{"Root": {{"A", `a`, nil}, {"MaybeB", `b*`, nil}}}
-}
-
-func vhDefFold() Rules {
-	return Rules{"Root": {{"Select", `(?i)se`, nil}, {"Ident", `[a-zA-Z]+`, nil}}}
-}
-
-func vhDefPushPop() Rules {
-	return Rules{
-		"Root": {{"Open", `\(`, Push("In")}, {"Ident", `[a-z]`, nil}},
-		"In":   {{"Close", `\)`, Pop()}, {"Open", `\(`, Push("In")}, {"Num", `[0-9]`, nil}},
-	}
-}
-
-func vhDefString() Rules { // README-style interpolated string
-	return Rules{
-		"Root":   {{"String", `"`, Push("String")}, {"Ident", `[a-z]+`, nil}},
-		"String": {{"Escaped", `\\.`, nil}, {"StringEnd", `"`, Pop()}, {"Char", `[^"\\]+`, nil}},
-	}
-}
-
-func vhDefReturn() Rules {
-	return Rules{
-		"Root": {{"Hash", `#`, Push("Cmt")}, {"Ident", `[a-z]`, nil}},
-		"Cmt":  {{"Bang", `!`, nil}, Return()},
-	}
-}
-
-func vhDefIncludeFirst() Rules {
-	return Rules{
-		"Root":   {Include("Common"), {"Ident", `[a-z]+`, nil}},
-		"Common": {{"Kw", `if`, nil}, {"ws", ` `, nil}},
-	}
-}
-
-func vhDefIncludeMiddle() Rules {
-	return Rules{
-		"Root":   {{"X", `x`, nil}, Include("Common"), {"Any", `[a-z]`, nil}},
-		"Common": {{"XY", `xy`, nil}, {"A", `a`, nil}},
-	}
-}
-
-func vhDefIncludeNested() Rules {
-	return Rules{
-		"Root": {{"Open", `\[`, Push("In")}, Include("L1")},
-		"In":   {{"Close", `\]`, Pop()}, Include("L1")},
-		"L1":   {{"A", `a`, nil}, Include("L2")},
-		"L2":   {{"B", `b`, nil}, {"ws", `\s`, nil}},
-	}
-}
-
-func vhDefPopInRoot() Rules { // Pop reachable from the initial state
-	return Rules{"Root": {{"Close", `\)`, Pop()}, {"Ident", `[a-z]`, nil}}}
-}
-
-func vhDefReturnInRoot() Rules {
-	return Rules{"Root": {{"Ident", `[a-z]`, nil}, Return()}}
-}
-
-func vhDefOptionalGroupPush() Rules { // push rule with a non-participating group
-	return Rules{
-		"Root": {{"H", `(a)(b)?`, Push("S")}, {"C", `c`, nil}},
-		"S":    {{"X", `x`, Pop()}, {"C", `c`, nil}},
-	}
-}
-
-func vhDefBackref() Rules { // heredoc-style back-reference
-	return Rules{
-		"Root": {{"Start", `<([a-c])`, Push("H")}, {"Ident", `[a-c]`, nil}},
-		"H":    {{"End", `\1>`, Pop()}, {"Body", `[a-c]`, nil}},
-	}
-}
-
-func vhDefBackrefMissing() Rules {
-	return Rules{
-		"Root": {{"Start", `<(a)`, Push("H")}},
-		"H":    {{"End", `\2`, Pop()}, {"Body", `[a-c]`, nil}},
-	}
-}
-
-func vhDefBackrefQuoted() Rules { // the captured group may contain regexp metacharacters
-	return Rules{
-		"Root": {{"Start", `<(.)`, Push("H")}},
-		"H":    {{"End", `\1`, Pop()}, {"Body", `[a-c.+]`, nil}},
-	}
-}
-
-// ---------------------------------------------------------------------
 // Harness bodies
 
 func vhInput() string {
@@ -470,6 +351,16 @@ func VH_C03_OptGroupPush()   { vhC03(vhDefOptionalGroupPush()) }
 func VH_C03_Backref()        { vhC03(vhDefBackref()) }
 func VH_C03_BackrefMissing() { vhC03(vhDefBackrefMissing()) }
 func VH_C03_BackrefQuoted()  { vhC03In(vhDefBackrefQuoted(), vhInputASCII()) }
+
+func VH_C03_Repeat()         { vhC03(vhDefRepeat()) }
+func VH_C03_EmptyAlt()       { vhC03(vhDefEmptyAlt()) }
+func VH_C03_NoWordBoundary() { vhC03(vhDefNoWordBoundary()) }
+func VH_C03_EndAnchors()     { vhC03(vhDefEndAnchors()) }
+func VH_C03_FoldClass()      { vhC03(vhDefFoldClass()) }
+func VH_C03_DotAll()         { vhC03(vhDefDotAll()) }
+func VH_C03_NonASCIILit()    { vhC03(vhDefNonASCIILit()) }
+func VH_C03_NegClass()       { vhC03(vhDefNegClass()) }
+func VH_C03_Possessive()     { vhC03(vhDefPossessive()) }
 
 func VH_C03_Canary() {
 	in := vhInput()
